@@ -176,6 +176,19 @@ def shrink(case):
         yield {k: v for k, v in case.items() if k != "_lab"}
 
 
-LEVEL_TEXT = "placeholder"
-LEVEL_NOTE = "placeholder"
-TECHNIQUE = "Coq proof + extracted-model correspondence"
+LEVEL_TEXT = ("Coq proof + correspondence. Unbounded theorems (all graphs, all L,S): inducing_exact / inducing_witness (the model's "
+              "search returns True iff an inducing path relative to <L,S> exists - simple step path, inner nodes colliders or in L, "
+              "colliders in An({x,y} u S), endpoints outside L u S - and the returned node list is one), mag_nodes (node set = V \\ (L u S)), "
+              "mag_marks (->, <-, <->, -- exactly by the four ancestry cases). Bounded theorems, kernel computation over ALL DAGs on "
+              "<= 4 nodes x all disjoint (L,S) x all ordered pairs x all Z, lifted to the path-based Props msep/dsep with msep_dec_spec: "
+              "mag_adjacency_bounded_4 (adjacent iff no set of other observed nodes d-separates given Z u S) and "
+              "mag_independence_bounded_4 (m-separation given Z in the MAG iff d-separation given Z u S in the DAG). The same two clauses "
+              "for n = 5 (sampled L,S) and random n <= 6 are checked only by the extracted brute-force oracle in the tie (testing). The "
+              "implementation is tied to the model by correspondence on the cases of `rule`, incl. six non-default label families.")
+LEVEL_NOTE = ("The full Richardson-Spirtes/Zhang marginalisation theorem (Spec.mag_full_stmt) is stated but proved only to n = 4; n = 5 in the "
+              "kernel is out of reach (about 6 CPU-hours of vm_compute). Bounded theorems quantify over arbitrary edge lists E and node "
+              "lists L0,S0 through their canonical listing on nodes 0..n-1 (dag_of, L_of, S_of). The model is the repaired search "
+              "(un-mark on backtrack, ==, {A}, add_nodes_from): on the unpatched /repo the check reports the four defects as VIOLATIONs; "
+              "fix proposals fixes/C06-*.patch. Paths are edge-level (a step names its layer); the code's node-level collider test "
+              "agrees with it on acyclic ADMGs (observed on every case, not proved).")
+TECHNIQUE = "Coq proof (enumeration exactness unbounded; marginalisation clauses by vm_compute for n<=4) + extracted-model correspondence"
